@@ -11,7 +11,9 @@
 package c08
 
 import (
+	"encoding/json"
 	"fmt"
+	"os"
 	"runtime"
 	"sync"
 	"testing"
@@ -32,6 +34,24 @@ func TestCheck(t *testing.T) {
 		"termination is judged against that bound on the virtual clock")
 	r.Assume("fake executor is honest: every update it emits carries the digest of its own request; updates are identified by pointer and compared by content")
 	r.Assume("residual nondeterminism: Go's choice between a ready timer and a ready update; the oracle relaxes the freshness bound when the timer was fired in that Run")
+	if f := r.ReplayFile(); f != "" {
+		// Re-run exactly the recorded case (a few times: the remaining
+		// nondeterminism is goroutine scheduling).
+		var w struct {
+			Witness struct {
+				Case caseCfg `json:"case"`
+			} `json:"witness"`
+		}
+		b, err := os.ReadFile(f)
+		if err != nil || json.Unmarshal(b, &w) != nil {
+			r.Inconclusive("cannot read replay file %s", f)
+			return
+		}
+		for i := 0; i < 5; i++ {
+			runCase(r, w.Witness.Case)
+		}
+		return
+	}
 	for _, s := range []string{"execute-while-executing", "update-channel-full", "completion-racing-reply", "shutdown-while-executing", "rpc-error-after-execute-request"} {
 		r.Floor(s, 5)
 	}
@@ -39,7 +59,7 @@ func TestCheck(t *testing.T) {
 	r.Floor("non-ok-completion-reported", 5)
 	r.Floor("real-loop-cases", 3)
 
-	bases := r.Pick(500, 2500)
+	bases := r.Pick(500, 4000)
 	perBase := r.Pick(4, 16)
 	realCases := r.Pick(16, 120)
 
@@ -72,8 +92,8 @@ func TestCheck(t *testing.T) {
 			realSem <- struct{}{}
 			defer func() { <-realSem }()
 			rng := r.Rand(7, uint64(i))
-			cfg := caseCfg{base: 1_000_000 + i, real: true, steps: 25 + rng.IntN(20)}
-			cfg.shutdownAt = rng.IntN(cfg.steps)
+			cfg := caseCfg{Base: 1_000_000 + i, Real: true, Steps: 25 + rng.IntN(20)}
+			cfg.ShutdownAt = rng.IntN(cfg.Steps)
 			runCase(r, cfg)
 			r.Situation("real-loop-cases")
 		}(i)
@@ -91,7 +111,7 @@ func TestCheck(t *testing.T) {
 			default:
 				k = (steps*v)/perBase + rng.IntN(3)
 			}
-			jobs <- job{caseCfg{base: b, variant: v, steps: steps, shutdownAt: k}}
+			jobs <- job{caseCfg{Base: b, Variant: v, Steps: steps, ShutdownAt: k}}
 		}
 	}
 	close(jobs)
